@@ -67,3 +67,4 @@ META = dict(
     technique="Lean 4 proofs (induction over dimensions/lists, omega/linarith) + regenerated facts (go/ast call graph, "
               "kernel-evaluated checker) + differential correspondence model vs real code with a dynamic lock monitor",
 )
+READY = True
